@@ -34,6 +34,9 @@ func runC05(c *Ctx) {
 	// the bytes hashed under an entry's header are that entry's: ids are
 	// zero-based STAT positions on both ends (shared with C06/C07)
 	idNumbering(c, "R05.9", "R05.10", "R05.11")
+	// no unchanged path is reported: the differ's verdict 'different' needs a
+	// difference between the two sides (shared with C02)
+	r02_13(c, "R05.12")
 }
 
 // R05.5: the bytes that are hashed are the bytes that are stored.
